@@ -34,8 +34,8 @@
 From stdpp Require Import gmap.
 From Verif.Common Require Import Sync.
 From Verif.C02 Require Import Model Spec.
-From Verif.C01 Require Import Model Spec Compose Instances Passthru L3Reflag L3Meets RoutesPools.
-From Verif.C01 Require InstC04 InstC07 NodeC07 NodeC04.
+From Verif.C01 Require Import Model Spec Compose Instances Passthru L3Reflag L3Meets RoutesPools Fanin Refines Graph Dispatch RuleScanner GraphExample Slices.
+From Verif.C01 Require InstC04 InstC07 NodeC07 NodeC04 NodeC03 NodeC05 NodeC43.
 
 (* --- the graph model: a synchronous producer->consumer composition runs the consumer on everything the producer emitted *)
 Theorem c01_seq_outs : forall A B C (n1 : node A B) (n2 : node B C) is,
@@ -187,6 +187,135 @@ Proof.
   split; [by eexists (_ :: _ :: _ :: _ :: _ :: _ :: _ :: [_])|]. split; [by eexists (_ :: _ :: _ :: [_])|].
   split; vm_compute; reflexivity.
 Qed.
+
+
+(* ==================================================================================================================
+   THE GRAPH ASSEMBLED FROM SLICES (Graph.v, Fanin.v, Slices.v, Dispatch.v, RuleScanner.v)
+
+   graph6 = ( policy slice | rules slice | IP set slice | route slice | other slice | flusher ) ; EventSequencer
+   c01_history_independent (below) is the whole-graph theorem for it.  What is STILL ASSUMED, exactly:
+     (H1) contract6: the merged callback stream of an admitted history is inside C02's sequencer contract and ends
+          with the flush (C02's per-message checker verifies this on the real graph in every correspondence case);
+     (H2) one history-freeness statement per slice: ep_hf, rules_hf, ipset_hf, route_hf, other_hf.
+   Each slice is  feeder ; node ; emitter  and (H2) reduces, by the slice theorems below, to the feeder and the emitter:
+     policy slice  node = PolicyResolver+PolicySorter  PROVED (C03)        - c01_slice_resolver;  assumed: its feeder
+                   (ActiveRulesCalculator match callbacks via the label index - C07 proves the index exact,
+                   c01_inherit_index_node_hf, the plumbing through the ARC is not modelled - merged with the
+                   policy/tier/local-endpoint updates) and its emitter (ModelWorkloadEndpointToProto / tierInfoToProtoTierInfo)
+     rules slice   node = ValidationFilter+ARC          PROVED (C05)        - c01_slice_arc;       assumed: emitter = RuleScanner's
+                   rule conversion to ParsedRules (the RuleScanner's IP set REFERENCE COUNTING is proved: c01_rulescanner_hf)
+     IP set slice  node = SelectorAndNamedPortIndex     PROVED (C04)        - c01_slice_ipset;     assumed: feeder (datastore
+                   endpoints/netsets/profile labels + the RuleScanner's active IP sets as C04 operations), emitter
+     route slice   node = L3RouteResolver               PROVED (C43)        - c01_slice_l3;        assumed: feeder (abstraction of
+                   pools/blocks/nodes/workloads to C43's operations inside C43's domain: sep/hop_ok/dop_ok), emitter;
+                   C43's conclusion leaves pure pool-CIDR routes and nodes' own /32s unspecified: the emitter must not
+                   depend on them (hypothesis of c01_slice_l3)
+     other slice   VXLANResolver, EncapsulationResolver: ASSUMED (no model); DataplanePassthru (pools, host metadata,
+                   wireguard) and ProfileDecoder (service accounts, namespaces): the generic passthru is PROVED
+                   (c01_passthru_hf) given the decoding of key and value to an id and a digest
+     dispatcher routing / local-remote endpoint filters: PROVED (c01_dispatch_routing_hf)
+     flusher: PROVED (inside Graph.v)
+   Every emitter hypothesis also asks that the emitter's image does not depend on the slack the node theorem leaves
+   (e.g. C03: default action of tiers that do not exist; "removed" vs never-sent endpoints).
+   ================================================================================================================== *)
+
+(* fan-in: slices writing disjoint classes of dataplane objects, interleaved in ANY way, add up to the union *)
+Theorem c01_fanin : forall (Cl1 Cl2 : cell -> Prop), (forall c, Cl1 c -> Cl2 c -> False) ->
+  forall (X : stype) (s1 s2 : node (s_msg X) sev) (P : list (s_msg X) -> Prop) F1 F2,
+  hf (Y := CB) s1 P (Forall (in_class Cl1)) F1 -> hf (Y := CB) s2 P (Forall (in_class Cl2)) F2 ->
+  hf (Y := CB) (fanin s1 s2) P (Forall (in_class (fun c => Cl1 c \/ Cl2 c))) (fun x => wunion (F1 x) (F2 x)).
+Proof. exact @hf_fanin. Qed.
+Print Assumptions c01_fanin.
+
+(* a slice = feeder ; node ; emitter *)
+Theorem c01_slice : forall (X XI YI : stype) (feed : node (s_msg X) (s_msg XI)) (n : node (s_msg XI) (s_msg YI))
+    (emit : node (s_msg YI) sev) (P : _ -> Prop) (PI : _ -> Prop) (QI : _ -> Prop) (QO : _ -> Prop) G F E,
+  (forall a b, s_eqv XI a b -> a = b) -> (forall a b, s_eqv YI a b -> E a = E b) ->
+  hf (X := X) (Y := XI) feed P PI G -> hf (X := XI) (Y := YI) n PI QI F -> hf (X := YI) (Y := CB) emit QI QO E ->
+  hf (X := X) (Y := CB) (slice feed n emit) P QO (E ∘ F ∘ G).
+Proof. exact @slice_hf. Qed.
+Print Assumptions c01_slice.
+
+(* MAIN THEOREM, restated with the smallest remaining hypothesis (see the box above): six slices + sequencer *)
+Theorem c01_history_independent : forall (K : Type) `{Countable K} (V : Type)
+    (admitted : list (dmsg K V) -> Prop) late
+    (s_ep s_rules s_ipset s_route s_other : node (dmsg K V) sev)
+    (F_ep F_rules F_ipset F_route F_other : gmap K V * bool -> world),
+  hf (X := DS K V) (Y := CB) s_ep admitted (Forall (in_class (kclass [KEp]))) F_ep ->
+  hf (X := DS K V) (Y := CB) s_rules admitted (Forall (in_class (kclass [KPol; KProf]))) F_rules ->
+  hf (X := DS K V) (Y := CB) s_ipset admitted (Forall (in_class (kclass [KIPSet]))) F_ipset ->
+  hf (X := DS K V) (Y := CB) s_route admitted (Forall (in_class (kclass [KRoute]))) F_route ->
+  hf (X := DS K V) (Y := CB) s_other admitted (Forall (in_class (kclass [KVtep; KHost; KPool; KSA; KNS; KSvc]))) F_other ->
+  (forall h, admitted h -> seq_admits late (n_outs (front6 s_ep s_rules s_ipset s_route s_other) h)) ->
+  forall h D e,
+    admitted h -> settled h -> (net (DS K V) h).1 = D -> NoDup e.*1 -> list_to_map e = D -> admitted (fresh e) ->
+    dp_of (n_outs (graph6 late s_ep s_rules s_ipset s_route s_other) h)
+    = dp_of (n_outs (graph6 late s_ep s_rules s_ipset s_route s_other) (fresh e)).
+Proof. intros K ? ? V. exact (@graph6_history_independent K _ _ V). Qed.
+Print Assumptions c01_history_independent.
+
+(* its hypotheses are satisfiable, the contract included: a closed six-slice graph *)
+Theorem c01_history_independent_closed_example : forall h D e,
+  ends_flush h -> settled h -> (net (DS N N) h).1 = D -> NoDup e.*1 -> list_to_map e = D ->
+  dp_of (n_outs (graph6 true silent silent silent silent pools) h)
+  = dp_of (n_outs (graph6 true silent silent silent silent pools) (fresh e)).
+Proof. exact ex_graph6_history_independent. Qed.
+Print Assumptions c01_history_independent_closed_example.
+
+(* --- slices whose node is discharged by another property's theorem *)
+Theorem c01_slice_resolver : forall (X : stype) v (feed : node (s_msg X) (s_msg NodeC03.X3)) emit (P QO : _ -> Prop) G E,
+  Verif.C03.Model.v_fixed v = true ->
+  hf (X := X) (Y := NodeC03.X3) feed P (NodeC03.admitted3 v) G ->
+  hf (X := NodeC03.Y3) (Y := CB) emit (fun _ => True) QO E ->
+  (forall VW D, NodeC03.sat3 VW D -> E (inl VW) = E (inr D)) ->
+  hf (X := X) (Y := CB) (slice feed (NodeC03.node3 v) emit) P QO (fun x => E (inr (G x))).
+Proof. exact @slice_resolver_hf. Qed.
+Print Assumptions c01_slice_resolver.
+
+Theorem c01_slice_arc : forall (X : stype) validate (feed : node (s_msg X) (s_msg (NodeC05.X5 validate))) emit (P QO : _ -> Prop) G E,
+  hf (X := X) (Y := NodeC05.X5 validate) feed P (fun _ => True) G ->
+  hf (X := NodeC05.Y5) (Y := CB) emit (fun _ => True) QO E ->
+  (forall vw d, NodeC05.sat5 vw d -> E (inl vw) = E (inr d)) ->
+  hf (X := X) (Y := CB) (slice feed (NodeC05.node5 validate) emit) P QO (fun x => E (inr (G x))).
+Proof. exact @slice_arc_hf. Qed.
+Print Assumptions c01_slice_arc.
+
+Theorem c01_slice_l3 : forall (X : stype) (BK : Verif.Common.Prefix.prefix -> Prop)
+    (feed : node (s_msg X) (s_msg NodeC43.X43)) emit (P QO : _ -> Prop) G E,
+  (forall a b x, BK a -> BK b -> Verif.Common.Prefix.covers 32 a x = true -> Verif.Common.Prefix.covers 32 b x = true -> a = b) ->
+  hf (X := X) (Y := NodeC43.X43) feed P (NodeC43.admitted43 BK) G ->
+  hf (X := NodeC43.Y43) (Y := CB) emit (fun _ => True) QO E ->
+  (forall out d, NodeC43.sat43 out d -> E (inl out) = E (inr d)) ->
+  hf (X := X) (Y := CB) (slice feed NodeC43.node43 emit) P QO (fun x => E (inr (G x))).
+Proof. exact @slice_l3_hf. Qed.
+Print Assumptions c01_slice_l3.
+
+Theorem c01_slice_ipset : forall (X : stype) sel_of shuffle prune_ep prune_set
+    (feed : node (s_msg X) (s_msg NodeC04.X4)) emit (P QO : _ -> Prop) G E,
+  Verif.C04.Main.oracles_ok shuffle prune_ep prune_set ->
+  hf (X := X) (Y := NodeC04.X4) feed P (NodeC04.admitted4 sel_of) G ->
+  hf (X := NodeC04.Y4) (Y := CB) emit (fun _ => True) QO E ->
+  (forall a b, NodeC04.same_members a b -> E a = E b) ->
+  hf (X := X) (Y := CB) (slice feed (NodeC04.node4 shuffle prune_ep prune_set) emit) P QO (fun x => E (NodeC04.wanted (G x))).
+Proof. exact @slice_ipset_hf. Qed.
+Print Assumptions c01_slice_ipset.
+
+(* --- the cheap parts, proved for every history *)
+Theorem c01_dispatch_routing_hf : forall (K : Type) `{Countable K} (V : Type) (want : K -> bool),
+  hf (X := DS K V) (Y := DS K V) (pipe_map (dispatch want)) (fun _ => True) (fun _ => True) (restrict want).
+Proof. intros K ? ? V. exact (@route_hf K _ _ V). Qed.
+Print Assumptions c01_dispatch_routing_hf.
+
+Theorem c01_passthru_hf : forall (K : Type) `{Countable K} (Val : Type) (kd : kind) (idof : K -> N) `{!Inj (=) (=) idof}
+    (verof : Val -> N) (P : list (dmsg K Val) -> Prop),
+  hf (X := DS K Val) (Y := CB) (passthru kd idof verof) P (Forall (in_class (kclass [kd]))) (pt_world kd idof verof).
+Proof. intros K ? ? Val kd idof ? verof. exact (@passthru_hf K _ _ Val kd idof _ verof). Qed.
+Print Assumptions c01_passthru_hf.
+
+(* RuleScanner reference counting: the IP sets declared active = the IP sets some active policy/profile uses *)
+Theorem c01_rulescanner_hf : hf (X := RSIN) (Y := RSOUT) rs_node (fun _ => True) (fun _ => True) used.
+Proof. exact rs_hf. Qed.
+Print Assumptions c01_rulescanner_hf.
 
 (* --- node lemmas imported from the properties that own the node models *)
 Module IPSetIndex.
